@@ -184,6 +184,11 @@ func run(r *core.Report, env *e2.Env, cfg Config, w *ref.World, b Batch, pre ...
 	moreA(5)
 	c := Case{Config: cfg, World: w, Batch: b, Got: got}
 	ok := settle(bset, aset, moreB, moreA)
+	if len(b.Items) > 12 {
+		// big batch: keep only the entries that differ from the first standalone rendering
+		bset, aset = compact(bset, want), compact(aset, want)
+		c.Got = "(entries differing from standalone) " + diffOnly(got, want)
+	}
 	c.BatchRuns, c.AloneRuns = keysOf(bset), keysOf(aset)
 	if len(b.Items) > 12 {
 		c.Batch.Items, c.Batch.Want = trim(b, got)
@@ -198,6 +203,28 @@ func run(r *core.Report, env *e2.Env, cfg Config, w *ref.World, b Batch, pre ...
 		parts = append(parts, it.ID+":"+it.Content()+" standalone="+c.Batch.Want[i])
 	}
 	r.Violate(sig, fmt.Sprintf("[%s] batch{%s} -> %v ; standalone -> %v ; stored{%s} model{%s}", cfg.Name, strings.Join(parts, " ; "), c.BatchRuns, c.AloneRuns, e2.TuplesStr(w.Tuples), w.M), c)
+}
+
+func diffOnly(s, ref string) string {
+	rm := map[string]bool{}
+	for _, f := range strings.Fields(ref) {
+		rm[f] = true
+	}
+	var d []string
+	for _, f := range strings.Fields(s) {
+		if !rm[f] {
+			d = append(d, f)
+		}
+	}
+	return strings.Join(d, " ")
+}
+
+func compact(m map[string]int, ref string) map[string]int {
+	out := map[string]int{}
+	for k, n := range m {
+		out["differs from first standalone run in: "+diffOnly(k, ref)] += n
+	}
+	return out
 }
 
 // trim keeps the deviating items (and one sibling with the answer they received) of a big batch for the report.
@@ -239,7 +266,7 @@ func Run(o *core.Options) int {
 	if o.Replay != "" {
 		return replay(o, r)
 	}
-	perCfg, limit := 3, 12
+	perCfg, limit := 2, 8
 	if o.Thorough() {
 		perCfg, limit = 0, 48
 	}
